@@ -23,6 +23,7 @@
   * `complete_runs_agree`: all schedules that let every thread finish yield the sequential
     observations, and hence agree with each other.
 -/
+import LDEval.Properties.C13Options
 import LDEval.Model.Trace
 
 namespace LD.C13
